@@ -27,6 +27,8 @@ type FakeSource struct {
 	openPos  int
 	ctx      context.Context
 	sendFail int
+	holdNext bool          // the next ack send parks in the stream until released
+	parked   chan struct{} // non-nil while a send is parked; closed to release it
 	batches  chan []opencdc.Record
 }
 
@@ -92,6 +94,33 @@ func (p *FakeSource) SendFail(n int) {
 	p.mu.Unlock()
 }
 
+// HoldNextSend makes the next ack send park inside stream.Send (the plugin has not consumed
+// it) until ReleaseSend.
+func (p *FakeSource) HoldNextSend() {
+	p.mu.Lock()
+	p.holdNext = true
+	p.mu.Unlock()
+}
+
+// ReleaseSend lets a parked send go on (and disarms a hold that has not caught a send yet).
+func (p *FakeSource) ReleaseSend() bool {
+	p.mu.Lock()
+	defer p.mu.Unlock()
+	p.holdNext = false
+	if p.parked == nil {
+		return false
+	}
+	close(p.parked)
+	p.parked = nil
+	return true
+}
+
+func (p *FakeSource) SendParked() bool {
+	p.mu.Lock()
+	defer p.mu.Unlock()
+	return p.parked != nil
+}
+
 // Produce queues one batch of records for the next Source.Read.
 func (p *FakeSource) Produce(recs []opencdc.Record) { p.batches <- recs }
 
@@ -104,23 +133,42 @@ type fakeClient FakeSource
 
 func (c *fakeClient) Send(req pconnector.SourceRunRequest) error {
 	p := (*FakeSource)(c)
+	tag := 0
+	ks := make([]int, len(req.AckPositions))
+	for i, b := range req.AckPositions {
+		n, r := DecodePos(b)
+		ks[i] = r
+		if i == len(req.AckPositions)-1 {
+			tag = n
+		}
+	}
 	p.mu.Lock()
 	ctx := p.ctx
+	var wait chan struct{}
+	if p.holdNext && (ctx == nil || ctx.Err() == nil) {
+		p.holdNext = false
+		wait = make(chan struct{})
+		p.parked = wait
+	}
 	p.mu.Unlock()
+	if wait != nil {
+		// the send has begun and the plugin does not take it yet
+		p.log.Add(Event{K: "sendheld", S: p.s, N: tag})
+		select {
+		case <-wait:
+		case <-ctx.Done():
+			p.mu.Lock()
+			if p.parked == wait {
+				p.parked = nil
+			}
+			p.mu.Unlock()
+		}
+	}
 	var err error
 	p.log.With(func(app func(Event)) {
 		if ctx != nil && ctx.Err() != nil {
 			err = ctx.Err()
 			return
-		}
-		tag := 0
-		ks := make([]int, len(req.AckPositions))
-		for i, b := range req.AckPositions {
-			n, r := DecodePos(b)
-			ks[i] = r
-			if i == len(req.AckPositions)-1 {
-				tag = n
-			}
 		}
 		p.mu.Lock()
 		fail := p.sendFail > 0
